@@ -989,6 +989,24 @@ theorem assignIdx_spec : ∀ (ts : List Tgt) (vs : List Val) (i : Nat) (ρ : Env
         rw [this] at h; cases h; rfl
       simp [assign, h2]
 
+/-- unpacking from a stateful source: the registers are those of `assign`, and the source has
+advanced by exactly one element per target — wildcards included, in first, middle or *last*
+position (`a, _ = it` takes two elements, so the next `b, c = it` continues with the third) -/
+theorem assignSt_spec : ∀ (ts : List Tgt) (vs : List Val) (ρ : Env),
+    assignSt ts vs ρ = (assign ts vs ρ, vs.drop ts.length)
+  | [], _, _ => by simp [assignSt, assign]
+  | .id x :: ts, [], ρ => by simp [assignSt, assign, assignSt_spec ts []]
+  | .id x :: ts, v :: vs, ρ => by simp [assignSt, assign, assignSt_spec ts vs]
+  | .wild :: ts, [], ρ => by simp [assignSt, assign, assignSt_spec ts []]
+  | .wild :: ts, _ :: vs, ρ => by simp [assignSt, assign, assignSt_spec ts vs]
+
+/-- two unpackings in a row from the same source see consecutive, non-overlapping stretches -/
+theorem assignSt_chain (ts₁ ts₂ : List Tgt) (vs : List Val) (ρ : Env) :
+    (assignSt ts₂ (assignSt ts₁ vs ρ).2 (assignSt ts₁ vs ρ).1).2 = vs.drop (ts₁.length + ts₂.length) := by
+  simp [assignSt_spec, List.drop_drop, Nat.add_comm]
+
+example : (assignSt [.id 0, .wild] [n 1, n 2, n 3, n 4] ρ0).2 = [n 3, n 4] := by simp [assignSt]
+
 example : assign [.id 0, .wild, .id 1] [n 10, n 11] ρ0 = (ρ0.set 0 (n 10)).set 1 .null := by
   simp [assign]
 example : unpack 3 [n 1] = [n 1, .null, .null] := by simp [unpack]
